@@ -40,7 +40,7 @@ def c09(tier):
         empties = []
         for base in ("u1", "u8", "u12", "u32", "u64", "u100", "u128"):
             for form in ("{}", ";"):
-                for dflt in ("", ", default = 1", ", default: 0"):
+                for dflt in ("", ", default = 1", ", default: 0", ", debug", ", debug, default = 1", ", default = 1, debug"):
                     empties.append(f"#[bitfield({base}{dflt})] pub struct S{'' if form == ';' else ' '}{form}")
         ee, eu = D.compile_items(arts, [D.Item(j, t, probes=[("use", "pub fn use_all(s: S) -> S { S::new_with_raw_value(s.raw_value()) }")]) for j, t in enumerate(empties)],
                                  f"c09-{cname}-empty", emit="link", nshards=4, prelude=PRE)
